@@ -26,6 +26,7 @@ mod c13;
 mod c16;
 mod c18;
 mod c14;
+mod dce;
 mod probe;
 mod rng;
 mod sexp;
@@ -53,11 +54,13 @@ fn main() {
         "c20" => c20::main(&args),
         "c11" => c11::main(&args),
         "c17" => c17::main(&args),
+        "c17sem" => c17::main_sem(&args),
         "c19" => c19::main(&args),
         "c13" => c13::main(&args),
         "c16" => c16::main(&args),
         "c18" => c18::main(&args),
         "c14" => c14::main(&args),
+        "dce" => dce::main(&args),
         "probe" => probe::main(&args),
         "stages" => probe::stages(&args),
         "golden" => probe::golden(&args),
